@@ -142,8 +142,8 @@ FINDINGS = [
          what="lists have value semantics on the device: 'M = L' and a list passed to a helper are copies, so a later append through one name is not seen through the other (Python aliases)",
          cases=[prog("C01", P + AB + "L = [a, 2, 3]\nM = L\nL.append(9)\nmon.write(len(M))\nmon.write(M[-1])\n", [{"passes": 0, "ar": {"A0": [3], "A1": [12]}}], "M = L; L.append(9); len(M)"),
                 prog("C01", P + "def grow(v):\n    v.append(5)\n" + AB + "L = [a, 2]\ngrow(L)\nmon.write(len(L))\n", [{"passes": 0, "ar": {"A0": [3], "A1": [12]}}], "helper appending to its list parameter")]),
-    dict(id="KF-C15-chained-comparison-double-read", property="C15", status="open", commit=None,
-         what="a chained comparison evaluates its middle operand twice on the device: 100 < pot.read() < 900 performs two analogRead()s for one read()",
+    dict(id="KF-C15-chained-comparison-double-read", property="C15", status="fixed", commit="c7a3f81",
+         what="a chained comparison evaluated its middle operand twice on the device (100 < pot.read() < 900 performed two analogRead()s for one read()); nested in the middle operand the emitted text quadrupled per level (24 levels: gigabytes)",
          cases=[prog("C15", c15.PRO + 'pot = Potentiometer("A0")\nwhile True:\n    if 100 < pot.read() < 900:\n        mon.write("mid")\n    else:\n        mon.write("out")\n',
                      [{"passes": 2, "ar": {"A0": [500, 950, 50, 500]}}], "100 < pot.read() < 900 with samples 500, 950, 50, 500", space="P", meta={})]),
     dict(id="KF-C06-named-exception", property="C06", status="open", commit=None,
@@ -201,6 +201,23 @@ FINDINGS = [
          cases=[prog("C01", P + "def shadow(v):\n    x = v + 1\n    y = x * 2\n    return y\n" + AB + "x = a\ny = b\nmon.write(shadow(a))\nmon.write(x)\nmon.write(y)\n", RUN_AB, "helper assigns x, y without global", space="F")]),
     dict(id="KF-C09-string-negative-index", property="C09", status="fixed", commit="362df92",
          what="s[-1] on a string was emitted as s[(-1)] (read in front of the buffer); ch = s[0] was typed int", cases=[]),
+    dict(id="KF-C01-nested-branch-variable-reset", property="C01", status="fixed", commit="3151ca9",
+         what="a variable first assigned in an if nested in another if (or in a loop / try inside the if) inside a loop was still reset on every iteration",
+         cases=[prog("C01", P + AB + "for i in range(3):\n    if i < 2:\n        if i == 0:\n            w = a + 1\n    mon.write(w)\n", RUN_AB, "first assignment in a nested if inside a for loop", space="K")]),
+    dict(id="KF-C01-main-loop-variable-lifetime", property="C01", status="fixed", commit="f752387",
+         what="a variable first assigned in the body of 'while True:' was a local of loop(): a value assigned in one pass (under 'if n == 1:') was gone in the next",
+         cases=[prog("C01", P + AB + "n = 0\nwhile True:\n    n += 1\n    if n == 1:\n        v = b\n    mon.write(v)\n", [{"passes": 3, "ar": {"A0": [3], "A1": [12]}}], "first assignment under 'if n == 1:' in the main loop, read in later passes", space="K")]),
+    dict(id="KF-C16-keyword-evaluation-order", property="C16", status="fixed", commit="8995b49",
+         what="call-bearing arguments of a device call were evaluated in signature order, not in the order written: bz.beep(frequency=f(), off_ms=g(), on_ms=h()) called h() before g()", cases=[]),
+    dict(id="KF-C11-float-overflow", property="C11", status="fixed", commit="464d4f0",
+         what="a folded integer argument that does not fit a double (Servo(9, min_angle=2**2000), bz.play_tone(10**400), m.set_speed(2**1024)) leaked OverflowError", cases=[]),
+    dict(id="KF-C02-negated-bool", property="C02", status="fixed", commit="56e43a8",
+         what="-(a > 1), -True, -(not x) were typed bool: b = -(a > 1) stored true for -1 (b + 1 == 2)",
+         cases=[c02_case([("neg_bool", "top")], "v = -(a > 2)"), c02_case([("neg_not", "loop")], "v = -(not (a > 9)) in the main loop")]),
+    dict(id="KF-C06-reserved-identifiers", property="C06", status="fixed", commit="91ef6d2",
+         what="variables / parameters / helpers / devices named like a C++ keyword or an Arduino core name (default, long, new, delay, millis, HIGH, setup, loop ...) were accepted: the sketch did not compile, and a helper called delay() was called by the generated waits", cases=[]),
+    dict(id="KF-C04-helper-above-declaration", property="C04", status="fixed", commit="79000ee",
+         what="device commands inside a helper defined above the declaration were dispatched by method name only: sv.write(40) printed 40 on the serial line, rgb.blink(..) was emitted as Led.blink (did not compile), m.set_speed(..) was rejected", cases=[]),
     dict(id="KF-C14-lcd-rebind", property="C14", status="open", commit=None,
          what="one name bound first to a parallel LCD and later to an I2C LCD (or the reverse): both libraries are requested, but the emitter keeps only the first display (one header, one object); outside the documented style, like KF-C05-rebind",
          cases=c14_rebind_cases()),
